@@ -141,7 +141,7 @@ def stale_calls(w, rng):
     rng.shuffle(out)
     return out
 
-def close_case(rng, tier, many=False, readonly=False):
+def close_case(rng, tier, many=False, readonly=False, two_sessions=False):
     w = World(rng, names=PLAIN if rng.random() < 0.7 else NAMES, uuid_names=False)
     l = ['cr_h5count']
     w.open('ow')
@@ -178,8 +178,18 @@ def close_case(rng, tier, many=False, readonly=False):
         w.emit('cr_hold %s copy %d' % (e.slot, rng.randint(1, 3)))
     w.emit('cr_hold $F file'); held.append(('file', 0))
     if rng.random() < 0.5: w.emit('fflush')
-    w.emit('cr_h5count')
-    w.emit('dump')
+    if two_sessions:
+        # the same path is opened a second time in this process; the later session, whose handles are alive, is closed first:
+        # once every session is closed no id may be left and the file must be free
+        # (closing one session force-closes every object id of the FILE, the other session's too: nothing is asked of the
+        # first session between the two closes)
+        w.emit('cr_hold $F file2')
+        w.emit('cr_h5count')
+        w.emit('dump')
+        w.emit('cr_held file2 0 close')
+    else:
+        w.emit('cr_h5count')
+        w.emit('dump')
     w.emit('cr_close')
     w.emit('cr_h5count')
     calls = stale_calls(w, rng)
@@ -211,6 +221,8 @@ def cases(tier, seed, rng):
         out.append(Case(close_case(rng, tier, many=True), 'gen:close-many-handles'))
     for _ in range(3 if tier == 'quick' else 30):
         out.append(Case(close_case(rng, tier, readonly=True), 'gen:close-readonly-session'))
+    for _ in range(3 if tier == 'quick' else 30):
+        out.append(Case(close_case(rng, tier, two_sessions=True, readonly=rng.random() < 0.3), 'gen:close-two-sessions'))
     return out
 
 def nontrivial(case, tags):
